@@ -59,6 +59,18 @@ def stdOpt (sc : Scalar S) (l : List S) : Option S := do
   let v ← meanOpt sc (l.map fun x => sc.mul (sc.sub x mu) (sc.sub x mu))
   some (sc.sqrt v)
 
+/-- `(x − μ) / σ` where both statistics are defined (unmasked); a value whose column has no statistic is left as it is (it is masked anyway) -/
+def distMap (sc : Scalar S) (m s : Option S) (x : S) : S :=
+  match m, s with
+  | some m, some s => sc.div (sc.sub x m) s
+  | _, _ => x
+
+/-- `x · σ + μ` -/
+def undistMap (sc : Scalar S) (m s : Option S) (x : S) : S :=
+  match m, s with
+  | some m, some s => sc.add (sc.mul x s) m
+  | _, _ => x
+
 /-- `Pose.normalize_distribution(axis)`: `(x − μ) / σ` with `μ, σ` per (point, coordinate) or per coordinate. A coordinate column without any unmasked value keeps
     its (masked) values. Returns the body, `μ` and `σ` as `[point][coordinate]` tables (`none` = masked). -/
 def normalizeDistribution (sc : Scalar S) (isZero : S → Bool) [Inhabited S] (allPoints : Bool) (b : PBody S) :
@@ -67,18 +79,12 @@ def normalizeDistribution (sc : Scalar S) (isZero : S → Bool) [Inhabited S] (a
   let N := numPoints b
   let mu := (List.range N).map fun n => (List.range D).map fun d => meanOpt sc (columnVals b allPoints n d)
   let sd := (List.range N).map fun n => (List.range D).map fun d => stdOpt sc (columnVals b allPoints n d)
-  let f (n : Nat) (pt : List S) : List S := pt.mapIdx fun d x =>
-    match (mu.getD n []).getD d none, (sd.getD n []).getD d none with
-    | some m, some s => sc.div (sc.sub x m) s
-    | _, _ => x
+  let f (n : Nat) (pt : List S) : List S := pt.mapIdx fun d x => distMap sc ((mu.getD n []).getD d none) ((sd.getD n []).getD d none) x
   (mkBody .numpy isZero b.fps (b.data.map (List.map fun pe => pe.mapIdx f)) b.conf (some b.missing), mu, sd)
 
 /-- `unnormalize_distribution(mu, std)`: `x · σ + μ` -/
 def unnormalizeDistribution (sc : Scalar S) (isZero : S → Bool) [Inhabited S] (mu sd : List (List (Option S))) (b : PBody S) : PBody S :=
-  let f (n : Nat) (pt : List S) : List S := pt.mapIdx fun d x =>
-    match (mu.getD n []).getD d none, (sd.getD n []).getD d none with
-    | some m, some s => sc.add (sc.mul x s) m
-    | _, _ => x
+  let f (n : Nat) (pt : List S) : List S := pt.mapIdx fun d x => undistMap sc ((mu.getD n []).getD d none) ((sd.getD n []).getD d none) x
   mkBody .numpy isZero b.fps (b.data.map (List.map fun pe => pe.mapIdx f)) b.conf (some b.missing)
 
 end PoseVerif
